@@ -124,7 +124,12 @@ where
     run.count(row_name(w, s), 1);
     run.count("range_cases", 1);
     let n = rng.usize_in(0, if run.small { 25 } else if run.thorough() { 500 } else { 150 });
-    let mut enc: Enc<M, S> = RangeEncoder::new();
+    // 1/4 of the encoders start on a sink that already holds words: those count as content
+    let prefix: Vec<M::W> = if rng.chance(1, 4) { crate::props::c01::gen_words(rng, 4, false) } else { Vec::new() };
+    if !prefix.is_empty() {
+        run.count("range_encoders_on_prefilled_sink", 1);
+    }
+    let mut enc: Enc<M, S> = if prefix.is_empty() { RangeEncoder::new() } else { RangeEncoder::with_backend(prefix.clone()) };
     let mut msg = Msg::<M> { zoo: Vec::new(), syms: Vec::new() };
     let mut edges = Edges::default();
     let cfg = DriveCfg { n, steer_16: if rng.bool() { 12 } else { 2 }, max_n_symbols: if run.small { 8 } else { 40 }, end_near_16: 3 };
@@ -159,7 +164,7 @@ where
     edges.publish(run);
     // decoder exhaustion
     let words = enc.into_compressed().unwrap_infallible();
-    let mut dec = RangeDecoder::<M::W, S, _>::from_compressed(&words[..]).unwrap_infallible();
+    let mut dec = RangeDecoder::<M::W, S, _>::with_backend(constriction::backends::Cursor::new_at_pos(&words[..], prefix.len()).unwrap()).unwrap_infallible();
     for (i, &(mi, sym)) in msg.syms.iter().enumerate() {
         let (cursor, _, _) = dec.clone().into_raw_parts();
         let (_, pos) = cursor.into_buf_and_pos();
@@ -214,6 +219,25 @@ fn bits_row<W: Num>(run: &mut Run, rng: &mut Rng) {
         if bits.len() % w == 0 {
             run.count("bit_queries_at_word_boundary", 1);
             run.nontrivial();
+        }
+        // exporting (borrowing views) at this moment: lengths agree with the queries, and the
+        // queries still agree with the content afterwards (checked at the top of the next round)
+        if rng.chance(1, 3) {
+            let gl = st.get_compressed().len();
+            if gl != (bits.len() + 1).div_ceil(w) {
+                run.violation("size-query", "C18/bits-len", format!("StackCoder<{}> with {} bits exports {gl} words (one sealing bit is added)", W::NAME, bits.len()));
+                return;
+            }
+            let ql = qu.get_compressed().len();
+            if ql != qbits.div_ceil(w) {
+                run.violation("size-query", "C18/bits-len", format!("QueueEncoder<{}> with {qbits} bits exports {ql} words", W::NAME));
+                return;
+            }
+            run.count("bit_exports_between_queries", 1);
+            if st.len() != bits.len() || st.is_empty() != bits.is_empty() || qu.len() != qbits {
+                run.violation("size-query", "C18/bits-len", format!("StackCoder/QueueEncoder<{}>: after an export view was dropped len() = {} / {} with {} / {qbits} bits", W::NAME, st.len(), qu.len(), bits.len()));
+                return;
+            }
         }
         if step == n {
             break;
